@@ -4,7 +4,13 @@
 import copy
 
 from ._compat import PY_3_9_PLUS, get_generic_base
-from ._make import _OBJ_SETATTR, NOTHING, Attribute, fields
+from ._make import (
+    _HASH_CACHE_FIELD,
+    _OBJ_SETATTR,
+    NOTHING,
+    Attribute,
+    fields,
+)
 from .exceptions import AttrsAttributeNotFoundError
 
 
@@ -389,6 +395,10 @@ def assoc(inst, **changes):
         `attrs.evolve`, though.
     """
     new = copy.copy(inst)
+    if getattr(new, _HASH_CACHE_FIELD, None) is not None:
+        # A shallow copy carries the cached hash code of the original; the
+        # changed copy must compute its own.
+        _OBJ_SETATTR(new, _HASH_CACHE_FIELD, None)
     attrs = fields(inst.__class__)
     for k, v in changes.items():
         a = getattr(attrs, k, NOTHING)
